@@ -106,7 +106,7 @@ def obligations(ctx):
     ob("lemma.reader_progress", "h_lemma_reader_progress", None, defs=big)
     ob("lemma.writer_progress", "h_lemma_writer_progress", None, defs=big)
     ob("lemma.disjoint", "h_lemma_disjoint", None, defs=big)
-    smax = "64" if ctx.tier == "quick" else "1024"
+    smax = "16" if ctx.tier == "quick" else "256"
     small = {"RING_SMAX": smax, "CONTENT": None, "ORDER_GHOSTS": None}
     bnd = "ring size <= %s (content clauses use CBMC's built-in memcpy)" % smax
     ob("ring_write.content", "h_ring_write", "ring_write", defs=small, mode="bounded", bound=bnd)
